@@ -942,7 +942,7 @@ def _local_classifiers(ctx: Ctx) -> None:
         fn = m.func(f'LocalAsyncFS.{name}')
         atoms = [a for a in absdom.collect_test_atoms(fn.body)]
         isdir = [a for a in atoms if isinstance(a, ast.Call) and pf.dotted(a.func) == 'stat.S_ISDIR']
-        ctx.need(len(isdir) == 1 and len(atoms) == 1, f'LocalAsyncFS.{name}: expected exactly one test, on stat.S_ISDIR (found {[pf.nsrc(a) for a in atoms]})')
+        ctx.need(len(isdir) == len(atoms) <= 1, f'LocalAsyncFS.{name}: expected at most one test, on stat.S_ISDIR (found {[pf.nsrc(a) for a in atoms]})')
         cons = f'{LF}::LocalAsyncFS.{name}::directories'
         outs = {}
         for d in (False, True):
